@@ -36,8 +36,10 @@ MCInit == \/ \E s \in Strs : InitWith([op |-> "pct", in |-> s])
                 InitWith([op |-> "deadline_e2e", proto |-> p, secs |-> d, d |-> 0, prev |-> pv])
           \/ \E p \in {"connect", "grpc", "grpcweb"}, pv \in Prevs : InitWith([op |-> "nodeadline_e2e", proto |-> p, prev |-> pv])
           \* C12: the Spec a call's client interceptors and handler see, on a fresh / already used / forwarded Request
-          \/ \E p \in {"connect", "grpc", "grpcweb"}, u \in {"fresh", "otherclient", "forwarded"} :
-                InitWith([op |-> "spec_reuse", proto |-> p, used |-> u])
+          \/ \E p \in {"connect", "grpc", "grpcweb"}, u \in {"fresh", "otherclient", "forwarded"},
+                b \in {"http://verif.test", "http://verif.test/api/v1", "http://verif.test/", "https://verif.test:8443/a.b/c/",
+                        "http://verif.test/pkg.Other"} :
+                InitWith([op |-> "spec_reuse", proto |-> p, used |-> u, base |-> b])
           \/ \E c \in Codes : InitWith([op |-> "code", c |-> c])
           \/ \E d \in Durs : InitWith([op |-> "timeout", d |-> d])
 MCSpec == MCInit /\ [][Next]_vars
